@@ -204,6 +204,24 @@ class Prop(PropBase):
                                         'save-not-persisted'))
             if ok:
                 out += self.mon_saved_values(case, obs)
+            else:
+                # a block made only of `x = <literal>` and save(...) whose positional names are bound
+                # (context keys or assigned above) and whose keyword values are literals or context
+                # keys has nothing in it that can fail
+                lit = ('int', 'str', 'bool', 'none')
+                bound = {k for k, _ in case['ctx']} - {'save', '__builtins__'}
+                safe = True
+                for s in block:
+                    if s[0] == 'assign' and s[2][0] in lit and s[1] not in ('save', '__builtins__'):
+                        bound.add(s[1])
+                    elif s[0] == 'save' and all(n in bound for n in s[1]) and \
+                            all(e[0] in lit or (e[0] == 'name' and e[1] in bound) for _, e in s[2]):
+                        pass
+                    else:
+                        safe = False
+                if safe:
+                    out.append(fail('save-persists', f'py block {src!r} raised {obs["results"][0][1:]!r}: every argument '
+                                                     f'of save() is a bound name or a literal keyword', 'save-raises'))
         if '__builtins__' in ka and '__builtins__' not in kb and not any(f['fingerprint'] == 'builtins-in-context' for f in out) \
                 and '__builtins__' not in (set(L.save_targets(case['block'])) if case['kind'] == 'exec' else set()):
             out.append(fail('no-leak', '__builtins__ appeared in context', 'builtins-in-context'))
